@@ -373,6 +373,7 @@ class DensityMatrix(NeuralStateBase):
 
     @staticmethod
     def autoload(location, gpu=False):
+        start = location.tell() if hasattr(location, "seek") else None
         state_dict = torch.load(location)
         nn_state = DensityMatrix(
             unitary_dict=state_dict["unitary_dict"],
@@ -381,7 +382,7 @@ class DensityMatrix(NeuralStateBase):
             num_aux=len(state_dict["rbm_am"]["aux_bias"]),
             gpu=gpu,
         )
-        if hasattr(location, "seek"):
-            location.seek(0)  # an open file was read above; read it again from the start
+        if start is not None:
+            location.seek(start)  # an open file was read above; read it again from where that read began
         nn_state.load(location)
         return nn_state
